@@ -214,7 +214,7 @@ def parse_check(s):
     return (m.group(1) == 'true', m.group(2) == 'true', bad, m.group(4) == 'true', m.group(5) == 'true')
 
 
-def run(ctx):
+def _run(ctx):
     quick = ctx.tier == 'quick'
     status = G.generate(ctx, {'corr'})
     bad_tr = {k: v for k, v in status.items() if v}
@@ -339,3 +339,16 @@ def run(ctx):
                                'matrix': m.correlation.to_numpy().tolist(), 'repro': repro(X, cfg_name, seed)})
         ctx.extra['fits_compared'] = len(meta)
         ctx.extra['fits_with_ridge'] = int(n_ridge)
+
+
+def run(ctx):
+    """the check proper, then the two-models-one-configuration oracle on the real class (always, also after a broken translation)"""
+    from .. import extra_oracles2
+    try:
+        _run(ctx)
+    finally:
+        try:
+            extra_oracles2.gm_shared_config(ctx)
+        except Exception as ex:       # the oracle itself must never hide the result of the check proper
+            ctx.obligation('oracle:extra:raised', False, 'correspondence', repr(ex))
+            ctx.violation('oracle:extra:raised:' + type(ex).__name__, 'shared-configuration oracle raised ' + repr(ex), {'repro': '# see tools/vf/extra_oracles2.py'})
